@@ -1,2 +1,3 @@
 pub mod ans;
+pub mod chain;
 pub mod range;
